@@ -194,7 +194,7 @@ pub fn build_tree(n: usize, spec: &TreeSpec) -> Box<dyn G> {
     }
     for pass in 0..2 {
         for (i, nd) in spec.nodes.iter().enumerate() {
-            let first = !spec.pairs_first || i % 2 == 1;
+            let first = if spec.segment > 0 { i % spec.segment == 1 } else { !spec.pairs_first || i % 2 == 1 };
             if (pass == 0) != first {
                 continue;
             }
